@@ -61,8 +61,8 @@ PROPS = {
                 quick_s=55, thorough_s=900, quick_max=200000, thorough_max=4000000,
                 rule="one run = either a complete handshake (+ data) in which the entropy source of one endpoint fails at its i-th draw "
                      "(this draw only, or this and all later ones) or returns up to 3 degenerate all-0x00/0xFF draws, or a single randomised API "
-                     "operation (23 operations: SM2 keygen/sign/encrypt/ECDH incl. reused contexts, PKCS#8, X.509 cert/req/CRL signing, CMS "
-                     "sign/envelop, TLS record IV, Hello random, pre-master secret, ServerKeyExchange signature, SM9 keygen/sign/encrypt/exchange) "
+                     "operation (26 operations: SM2 keygen/sign/encrypt/ECDH incl. reused contexts, PKCS#8, X.509 cert/req/CRL signing, CMS "
+                     "sign/envelop, TLS record IV, Hello random, pre-master secret, ServerKeyExchange signature, SM9 keygen/sign/encrypt/exchange steps 1A and 1B, PKCS#8 PEM) "
                      "with every draw index failing in turn, stream pairs (same stream twice, two different streams) and histories of repeated "
                      "operations on one stream; the fault index is drawn from the draw count of the fault-free twin; non-trivial = the injected entropy "
                      "fault really fired (or the pair/history was executed); distinct = distinct (operation or protocol/role, mode, draw index, args) ids"),
